@@ -444,11 +444,14 @@ Fixpoint settle (rounds : nat) (ch : chain) (acc : list cobs) : chain * list cob
 Definition node_size (nd : node) : nat :=
   length (Client.calls (n_cli nd)) + length (Client.queue (n_cli nd))
   + length (Client.cancels (n_cli nd)) + length (Client.inflight (n_cli nd))
+  + length (Client.timers (n_cli nd)) + length (Client.waiters (n_cli nd))
   + length (l_c2s (n_link nd)) + length (l_s2c (n_link nd))
   + length (Server.s_handlers (n_srv nd)) + length (Server.s_respq (n_srv nd))
-  + length (Server.s_inflight (n_srv nd)) + length (Server.s_cancels (n_srv nd)).
+  + length (Server.s_inflight (n_srv nd)) + length (Server.s_timers (n_srv nd))
+  + length (Server.s_cancels (n_srv nd)) + length (n_hs nd).
+(* dominates the potential ChainRounds3.Phi (ChainRounds5.Phi_lt_rounds) *)
 Definition rounds_of (ch : chain) : nat :=
-  8 + 4 * length ch + 4 * length ch * fold_right (fun nd a => node_size nd + a) 0 ch.
+  8 + 22 * length ch + 22 * length ch * fold_right (fun nd a => node_size nd + a) 0 ch.
 
 Definition cgauge (i : nat) (nd : node) : list cobs :=
   [KCGauge i (len (Client.inflight (n_cli nd))) (len (Client.timers (n_cli nd)))].
